@@ -69,13 +69,14 @@ impl Path {
             }
         }
 
-        let cs_cell = OnceCell::new();
-        let _ = cs_cell.set(cs);
-
+        // The components string is always regenerated from the components:
+        // caching the input here would drop the leading dot of a relative
+        // path and keep non-canonical spellings such as "007", so that equal
+        // paths would print (and hash) differently.
         Path {
             components,
             is_relative,
-            components_string: cs_cell,
+            components_string: OnceCell::new(),
         }
     }
 
